@@ -102,8 +102,34 @@ fn adjacent_menu(u: i32) -> Vec<Vec<ds::Horizontal>> {
     v
 }
 
+/// Glue whose stretch is infinite of every order, with both signs (so that totals of one order can
+/// cancel on a line and a lower or a different order decides, §838/§852), a zero amount at an infinite
+/// order, cancelling and mixed-order pairs inside one separator, a forced break (lines with a single
+/// infinite glue), and a few finite items.
+fn orders_menu(u: i32) -> Vec<Vec<ds::Horizontal>> {
+    use GlueOrder::*;
+    let inf = |w: i32, st: i32, o: GlueOrder| glue(w * u, st * u, o, 0, Normal);
+    vec![
+        vec![g(u, 2, 1, 1)],
+        vec![inf(1, 1, Fil)],
+        vec![inf(1, 1, Fill)],
+        vec![inf(1, 1, Filll)],
+        vec![inf(1, -1, Fil)],
+        vec![inf(1, -1, Fill)],
+        vec![inf(1, -1, Filll)],
+        vec![pen(-10000)],
+        vec![inf(2, 0, Filll)],
+        vec![inf(1, 1, Fil), inf(1, -1, Fil)],
+        vec![inf(1, 1, Fil), inf(1, 1, Filll)],
+        vec![inf(1, 2, Fill), inf(1, -1, Fill)],
+        vec![pen(50)],
+        vec![disc("-", "", 0)],
+    ]
+}
+
 fn menu_by_name(name: &str, u: i32) -> Vec<Vec<ds::Horizontal>> {
     match name {
+        "orders" => orders_menu(u),
         "clean" => clean_menu(u),
         "reduced" => reduced_menu(u),
         "looseness" => looseness_menu(u),
@@ -113,10 +139,20 @@ fn menu_by_name(name: &str, u: i32) -> Vec<Vec<ds::Horizontal>> {
 }
 
 /// How the list ends: the way `break_line` ends a paragraph (§816: \penalty10000 \parfillskip), or bare.
-fn finish_list(list: &mut Vec<ds::Horizontal>, u: i32, bare: bool) {
-    if !bare {
+fn finish_list(list: &mut Vec<ds::Horizontal>, u: i32, bare: bool, ending: u8) {
+    // ending 0: what the parameter set says (\parfillskip = 0pt plus 1fil, or bare);
+    // 1..=3: \parfillskip stretching 1u at order fil, fill, filll; 4: 0pt plus -1fil; 5: bare
+    let fill_skip = match ending {
+        0 => (!bare).then_some((u, GlueOrder::Fil)),
+        1 => Some((u, GlueOrder::Fil)),
+        2 => Some((u, GlueOrder::Fill)),
+        3 => Some((u, GlueOrder::Filll)),
+        4 => Some((-u, GlueOrder::Fil)),
+        _ => None,
+    };
+    if let Some((st, o)) = fill_skip {
         list.push(pen(10000));
-        list.push(glue(0, u, GlueOrder::Fil, 0, GlueOrder::Normal));
+        list.push(glue(0, st, o, 0, GlueOrder::Normal));
     }
 }
 
@@ -134,7 +170,10 @@ impl Clone for PVar {
     }
 }
 
+/// single changes that are also combined in pairs
 const N_SINGLES: usize = 15;
+/// all single changes (15..=17: skips with infinite stretch of order fill, filll and negative fil)
+const N_ALL_SINGLES: usize = 18;
 /// fields touched by single change k (two changes of the same field are not combined)
 const FIELD_OF: [u8; N_SINGLES] = [0, 0, 1, 2, 3, 4, 4, 5, 5, 6, 7, 7, 8, 9, 3];
 
@@ -156,14 +195,17 @@ fn apply_single(v: &mut PVar, k: usize, u: i32) {
         12 => v.emergency = u,
         13 => v.bare_end = true,
         14 => p.line_penalty = -20,
+        15 => p.right_skip = Glue { width: Scaled::ZERO, stretch: Scaled(u), stretch_order: GlueOrder::Fill, ..Default::default() },
+        16 => p.left_skip = Glue { width: Scaled::ZERO, stretch: Scaled(u), stretch_order: GlueOrder::Filll, ..Default::default() },
+        17 => p.right_skip = Glue { width: Scaled::ZERO, stretch: Scaled(-u), stretch_order: GlueOrder::Fil, ..Default::default() },
         _ => unreachable!(),
     }
 }
-/// 0 = plain defaults; 1..=15 = one change; then every pair of changes of different fields.
+/// 0 = plain defaults; 1..=18 = one change; then every pair of the first 15 changes that touch different fields.
 fn pvars(u: i32, pairs: bool) -> Vec<(String, PVar)> {
     let base = PVar { params: Params::plain_tex_defaults(), emergency: 0, bare_end: false };
     let mut out = vec![("plain".to_string(), base.clone())];
-    for k in 0..N_SINGLES {
+    for k in 0..N_ALL_SINGLES {
         let mut v = base.clone();
         apply_single(&mut v, k, u);
         out.push((format!("change {k}"), v));
@@ -449,6 +491,44 @@ fn check_instance(idx: u64, inst: &Inst, acc: &mut Acc) {
     if br.best_consecutive_hyphens {
         acc.count("optimum_has_consecutive_hyphenated_breaks");
     }
+    if let Some((_, seq)) = &br.best {
+        // which orders of infinity set the lines of the optimum (from the model's measures), and
+        // whether infinite glue is present on a line whose total of that order is zero
+        let mut a = 0usize;
+        let mut prev_node = 0usize;
+        for bi in seq {
+            let Some(b) = o.bp_at(*bi) else { break };
+            let m = o.meas[a][b];
+            let nz: Vec<usize> = (1..4).filter(|k| m.st[*k] != 0).collect();
+            if nz.len() == 1 {
+                acc.count(["", "optimum_line_set_by_fil_alone", "optimum_line_set_by_fill_alone", "optimum_line_set_by_filll_alone"][nz[0]]);
+            }
+            if nz.len() >= 2 {
+                acc.count("optimum_line_with_two_infinite_orders");
+            }
+            let mut present = [false; 4];
+            for n in &mlist[prev_node.min(mlist.len())..(*bi).min(mlist.len())] {
+                if let kp::Node::Glue(gs) = n {
+                    if gs.stretch != 0 {
+                        present[gs.stretch_order] = true;
+                    }
+                }
+            }
+            for sk in [&mp.left_skip, &mp.right_skip] {
+                if sk.stretch != 0 {
+                    present[sk.stretch_order] = true;
+                }
+            }
+            if (1..4).any(|k| present[k] && m.st[k] == 0) {
+                acc.count("optimum_line_where_an_infinite_order_cancels");
+                if nz.is_empty() {
+                    acc.count("optimum_line_where_cancellation_leaves_finite_stretch_to_decide");
+                }
+            }
+            a = b + 1;
+            prev_node = *bi;
+        }
+    }
     if br.feasible == 0 {
         acc.count("no_feasible_sequence");
     }
@@ -532,6 +612,8 @@ struct Space {
     pvar_sel: Vec<usize>,
     loosenesses: Vec<i32>,
     forces: Vec<bool>,
+    /// how the list ends, see `finish_list`
+    endings: Vec<u8>,
 }
 
 impl Space {
@@ -552,11 +634,12 @@ impl Space {
         r.push(self.n_pvars() as u64);
         r.push(self.loosenesses.len() as u64);
         r.push(self.forces.len() as u64);
+        r.push(self.endings.len() as u64);
         r
     }
     fn bounds(&self) -> String {
         format!(
-            "{}: {} boxes (each 5u or 3u wide) joined by every choice from the '{}' menu ({} items); unit u in {:?} sp; line widths (in u) {:?}; tolerance in {:?}; {} parameter set(s){}; looseness in {:?}; force_solution in {:?}",
+            "{}: {} boxes (each 5u or 3u wide) joined by every choice from the '{}' menu ({} items); unit u in {:?} sp; line widths (in u) {:?}; tolerance in {:?}; {} parameter set(s){}; looseness in {:?}; force_solution in {:?}; list endings {:?} (0 = \\penalty10000 \\parfillskip plus 1fil or bare as the parameter set says, 1-3 = \\parfillskip plus 1u fil/fill/filll, 4 = plus -1u fil, 5 = bare)",
             self.what,
             self.nb,
             self.menu,
@@ -565,9 +648,10 @@ impl Space {
             self.widths,
             self.tolerances,
             self.n_pvars(),
-            if self.pairs { " (plain, 15 single changes, all pairs of changes of different fields)" } else { " (plain + single changes)" },
+            if self.pairs { " (plain, 18 single changes, all pairs of the first 15 that touch different fields)" } else { " (plain + single changes)" },
             self.loosenesses,
-            self.forces
+            self.forces,
+            self.endings
         )
     }
     fn run(&self, ctx: &mut Ctx, family_no: u64) {
@@ -593,7 +677,7 @@ impl Space {
                 }
                 let pi = if self.pvar_sel.is_empty() { rest[3] as usize } else { self.pvar_sel[rest[3] as usize] };
                 let var = &pv[ui][pi].1;
-                finish_list(&mut list, u, var.bare_end);
+                finish_list(&mut list, u, var.bare_end, self.endings[rest[6] as usize]);
                 let mut params = clone_params(&var.params);
                 params.looseness = self.loosenesses[rest[4] as usize];
                 let inst = Inst { list, unit: u, widths: self.widths[rest[1] as usize].iter().map(|w| w * u).collect(), tolerance: self.tolerances[rest[2] as usize], params, emergency: var.emergency, force: self.forces[rest[5] as usize] };
@@ -627,6 +711,7 @@ fn spaces(quick: bool) -> Vec<Space> {
             pvar_sel: vec![0],
             loosenesses: vec![0],
             forces: vec![false],
+            endings: vec![0],
         },
         Space {
             name: "clean-units",
@@ -640,6 +725,7 @@ fn spaces(quick: bool) -> Vec<Space> {
             pvar_sel: vec![0, 10, 13],
             loosenesses: vec![0],
             forces: vec![false],
+            endings: vec![0],
         },
         Space {
             name: "clean-params",
@@ -653,6 +739,7 @@ fn spaces(quick: bool) -> Vec<Space> {
             pvar_sel: vec![],
             loosenesses: vec![0],
             forces: vec![false],
+            endings: vec![0],
         },
         Space {
             name: "looseness",
@@ -666,6 +753,7 @@ fn spaces(quick: bool) -> Vec<Space> {
             pvar_sel: vec![0],
             loosenesses: vec![1, -1, 2, -2],
             forces: vec![false, true],
+            endings: vec![0],
         },
         Space {
             name: "adjacent-discardables",
@@ -679,6 +767,7 @@ fn spaces(quick: bool) -> Vec<Space> {
             pvar_sel: vec![0, 10, 11],
             loosenesses: vec![0],
             forces: vec![false],
+            endings: vec![0],
         },
         Space {
             name: "adjacent-discardables-4",
@@ -692,6 +781,35 @@ fn spaces(quick: bool) -> Vec<Space> {
             pvar_sel: vec![0],
             loosenesses: vec![0],
             forces: vec![false],
+            endings: vec![0],
+        },
+        Space {
+            name: "infinite-orders",
+            what: "infinite stretch of every order (fil, fill, filll) as the only infinite stretch of a line, +/- amounts of one order cancelling on a line, mixed orders (TeX §838/§852: per-order totals, badness 0 iff some infinite total is non-zero)".into(),
+            menu: "orders",
+            nb: if quick { 4 } else { 5 },
+            units: vec![PT],
+            widths: vec![vec![9], vec![12], vec![16], vec![12, 7]],
+            tolerances: vec![0, 200, 10000],
+            pairs: false,
+            pvar_sel: vec![0],
+            loosenesses: vec![0],
+            forces: vec![false],
+            endings: vec![1, 2, 3, 4, 5],
+        },
+        Space {
+            name: "infinite-orders-skips",
+            what: "the same alphabet with \\rightskip / \\leftskip stretching at order fil, fill, filll and -1fil (background totals cancel against the line's glue)".into(),
+            menu: "orders",
+            nb: if quick { 3 } else { 4 },
+            units: vec![PT],
+            widths: vec![vec![9], vec![12], vec![16], vec![12, 7]],
+            tolerances: vec![0, 200, 10000],
+            pairs: false,
+            pvar_sel: vec![12, 16, 17, 18],
+            loosenesses: vec![0],
+            forces: vec![false],
+            endings: vec![1, 2, 3, 4, 5],
         },
         Space {
             name: "tolerance-above-inf-bad",
@@ -705,6 +823,7 @@ fn spaces(quick: bool) -> Vec<Space> {
             pvar_sel: vec![0],
             loosenesses: vec![0],
             forces: vec![false],
+            endings: vec![0],
         },
     ]
 }
@@ -804,6 +923,12 @@ fn main() {
     ctx.require("looseness_not_reachable", "the requested looseness cannot be reached although feasible sequences exist");
     ctx.require("no_feasible_sequence", "no sequence of breaks is feasible (the answer must be None)");
     ctx.require("optimum_runs_past_the_listed_line_widths", "the optimum has more lines than the width sequence lists (line classes merge)");
+    ctx.require("optimum_line_set_by_fil_alone", "a line of the optimum whose only non-zero infinite stretch total is fil");
+    ctx.require("optimum_line_set_by_fill_alone", "a line of the optimum whose only non-zero infinite stretch total is fill");
+    ctx.require("optimum_line_set_by_filll_alone", "a line of the optimum whose only non-zero infinite stretch total is filll");
+    ctx.require("optimum_line_with_two_infinite_orders", "a line of the optimum with non-zero totals at two infinite orders");
+    ctx.require("optimum_line_where_an_infinite_order_cancels", "a line of the optimum carries infinite glue of an order whose total on that line is zero");
+    ctx.require("optimum_line_where_cancellation_leaves_finite_stretch_to_decide", "every infinite total of such a line is zero: the finite stretch decides the badness");
     ctx.require("skipped_non_monotone", "the model detects instances outside the monotonicity premise");
     ctx.require("logged_feasible_breakpoints_checked", "feasible breakpoints reported through debug::Logger and checked against the model");
     ctx.finish("one evaluation = one call of break_line_single_attempt on an enumerated (list, line widths, tolerance, parameters) instance, judged end to end against the brute-force optimum over every sequence of legal breakpoints and per step against the model's badness/penalty/demerits for every logged feasible breakpoint; non-trivial = at least two feasible sequences with different total demerits");
